@@ -6,16 +6,17 @@ use noodles_bgzf as bgzf;
 use noodles_vcf as vcf;
 use tokio::io::{self, AsyncRead, BufReader};
 
+use super::builder::Source;
 use crate::variant::Record;
 
 pub(super) enum Inner<R>
 where
     R: AsyncRead,
 {
-    Bcf(bcf::r#async::io::Reader<bgzf::r#async::io::Reader<BufReader<R>>>),
-    BcfRaw(bcf::r#async::io::Reader<BufReader<R>>),
-    Vcf(vcf::r#async::io::Reader<BufReader<R>>),
-    VcfGz(vcf::r#async::io::Reader<bgzf::r#async::io::Reader<BufReader<R>>>),
+    Bcf(bcf::r#async::io::Reader<bgzf::r#async::io::Reader<BufReader<Source<R>>>>),
+    BcfRaw(bcf::r#async::io::Reader<BufReader<Source<R>>>),
+    Vcf(vcf::r#async::io::Reader<BufReader<Source<R>>>),
+    VcfGz(vcf::r#async::io::Reader<bgzf::r#async::io::Reader<BufReader<Source<R>>>>),
 }
 
 impl<R> Inner<R>
